@@ -525,6 +525,155 @@ func genLive(rng *rand.Rand, top int) []liveOp {
 	return ops
 }
 
+// ---------- the top of the rune range ----------
+// rune is int32: math.MaxInt32 is a value Add/AddRange/Complement accept. A window of 41 values below and including
+// it is modelled exactly; everything below the window is only counted. Sets that live in the window are observed in
+// full (Has on every value, Len, String, Copy, Union, Intersects, Equal); the complement within [0, MaxInt32] — a set
+// of two thousand million members — through Len and the window, and it is then added to and read again.
+const topHi = 1<<31 - 1
+const topLo = topHi - 40
+
+func checkTop(rng *rand.Rand) {
+	gen := func() []ins {
+		n := rng.Intn(6)
+		s := make([]ins, 0, n)
+		for j := 0; j < n; j++ {
+			b := topLo + rng.Intn(41)
+			e := b
+			switch rng.Intn(3) {
+			case 1:
+				e = b + rng.Intn(3)
+			case 2:
+				e = b + rng.Intn(topHi-b+1)
+			}
+			if e > topHi {
+				e = topHi
+			}
+			s = append(s, ins{b, e})
+		}
+		if rng.Intn(3) == 0 {
+			s = append(s, ins{topHi - rng.Intn(2), topHi})
+		}
+		return s
+	}
+	a, b := gen(), gen()
+	w := map[string]any{"ops": seqStr(a), "b": seqStr(b), "universe": "the 41 largest runes"}
+	in := func(seq []ins, x int) bool {
+		for _, i := range seq {
+			if x >= i.B && x <= i.E {
+				return true
+			}
+		}
+		return false
+	}
+	count := func(seq []ins) int {
+		n := 0
+		for x := topLo; x <= topHi; x++ {
+			if in(seq, x) {
+				n++
+			}
+		}
+		return n
+	}
+	str := func(seq []ins) string {
+		var p []string
+		for x := topLo; x <= topHi; x++ {
+			if in(seq, x) {
+				p = append(p, strconv.Itoa(x))
+			}
+		}
+		return "[" + strings.Join(p, " ") + "]"
+	}
+	var sa, sb *set.Set
+	if !safe("top/build", w, func() { sa, sb = build(a), build(b) }) {
+		return
+	}
+	res.Evals++
+	res.Counters["top_of_range_cases"]++
+	obs := func(class string, s *set.Set, seq []ins) {
+		safe(class, w, func() {
+			for x := topLo - 2; x <= topHi; x++ {
+				if got := s.Has(rune(x)); got != in(seq, x) {
+					violate(class+"/Has", fmt.Sprintf("Has(%d)=%v, model %v", x, got, in(seq, x)), w)
+					return
+				}
+			}
+			if got := s.Len(); got != count(seq) {
+				violate(class+"/Len", fmt.Sprintf("Len()=%d, model %d", got, count(seq)), w)
+			}
+			if got := s.String(); got != str(seq) {
+				violate(class+"/String", fmt.Sprintf("String()=%q, model %q", got, str(seq)), w)
+			}
+		})
+	}
+	obs("top/a", sa, a)
+	safe("top/Copy", w, func() { obs("top/Copy", sa.Copy(), a) })
+	ab := append(append([]ins{}, a...), b...)
+	safe("top/Union", w, func() {
+		obs("top/Union", sa.Union(sb), ab)
+		obs("top/Union-commuted", sb.Union(sa), ab)
+	})
+	inter, equal := false, true
+	for x := topLo; x <= topHi; x++ {
+		inter = inter || in(a, x) && in(b, x)
+		equal = equal && in(a, x) == in(b, x)
+	}
+	safe("top/Intersects-Equal", w, func() {
+		if got := sa.Intersects(sb); got != inter {
+			violate("top/Intersects", fmt.Sprintf("a.Intersects(b)=%v, model %v", got, inter), w)
+		}
+		if got := sb.Intersects(sa); got != inter {
+			violate("top/Intersects", fmt.Sprintf("b.Intersects(a)=%v, model %v", got, inter), w)
+		}
+		if got := sa.Equal(sb); got != equal {
+			violate("top/Equal", fmt.Sprintf("a.Equal(b)=%v, model %v", got, equal), w)
+		}
+	})
+	// complement within [0, MaxInt32], then inserted into, then read again
+	safe("top/Complement", w, func() {
+		c := sa.Complement(topHi)
+		want := topLo + (41 - count(a)) // every value below the window, plus the window's non-members
+		if got := c.Len(); got != want {
+			violate("top/Complement-Len", fmt.Sprintf("Len of the complement within [0, MaxInt32] = %d, model %d", got, want), w)
+		}
+		for x := topLo - 2; x <= topHi; x++ {
+			if got := c.Has(rune(x)); got != !in(a, x) {
+				violate("top/Complement-Has", fmt.Sprintf("complement Has(%d)=%v, model %v", x, got, !in(a, x)), w)
+				return
+			}
+		}
+		lo := rng.Intn(200)
+		hi := lo + rng.Intn(60)
+		c.AddRange(rune(lo), rune(hi)) // already members: nothing may change
+		extra := ins{topLo + rng.Intn(41), topHi - rng.Intn(3)}
+		if extra.B <= extra.E {
+			c.AddRange(rune(extra.B), rune(extra.E))
+		}
+		want2 := topLo
+		for x := topLo; x <= topHi; x++ {
+			m := !in(a, x) || extra.B <= extra.E && x >= extra.B && x <= extra.E
+			if m {
+				want2++
+			}
+			if got := c.Has(rune(x)); got != m {
+				violate("top/Complement-then-AddRange-Has", fmt.Sprintf("after Complement(MaxInt32), AddRange(%d,%d), AddRange(%d,%d): Has(%d)=%v, model %v", lo, hi, extra.B, extra.E, x, got, m), w)
+				return
+			}
+		}
+		if got := c.Len(); got != want2 {
+			violate("top/Complement-then-AddRange-Len", fmt.Sprintf("after Complement(MaxInt32), AddRange(%d,%d), AddRange(%d,%d): Len()=%d, model %d", lo, hi, extra.B, extra.E, got, want2), w)
+		}
+		for _, x := range []int{lo, hi, (lo + hi) / 2, 0, 1000} {
+			if !c.Has(rune(x)) {
+				violate("top/Complement-then-AddRange-Has", fmt.Sprintf("after Complement(MaxInt32), AddRange(%d,%d): Has(%d)=false", lo, hi, x), w)
+			}
+		}
+	})
+	obs("top/operand-a", sa, a)
+	obs("top/operand-b", sb, b)
+	nontr["t:"+seqStr(a)+"|"+seqStr(b)] = true
+}
+
 func main() {
 	tier := os.Args[1]
 	go watchdog()
@@ -646,6 +795,10 @@ func main() {
 		res.Counters["random_with_inverted"]++
 	}
 
+	// (5) the top of the rune range
+	for i := 0; i < nrand/10; i++ {
+		checkTop(rng)
+	}
 	// (4) live sets: queries, copies, unions and complements interleaved with further insertions
 	nlive := nrand / 2
 	liveSample := ""
